@@ -355,6 +355,9 @@ type Prop[C any] struct {
 	// operation list with one element removed); used after rapid's own
 	// shrinking for a greedy delta-debugging pass that keeps the failure key.
 	Reduce func(C) []C
+	// Finalize optionally completes the failing case before it is recorded
+	// (e.g. attaches the observed history of a schedule-dependent run).
+	Finalize func(C) C
 }
 
 // Run drives p with rapid for n cases and records results in r.
@@ -428,6 +431,10 @@ func Run[C any](t *testing.T, r *Rec, p Prop[C], n int) {
 						}
 					}
 				}
+			}
+			if p.Finalize != nil {
+				fc := p.Finalize(*lastCase)
+				lastCase = &fc
 			}
 			r.Report(p.Kind, lastFail, *lastCase)
 		} else {
